@@ -180,6 +180,24 @@ def r03_3(ck: Check) -> None:
         ck.violated("R03.3", construct, "ancestor walk changed: %s" % [e.describe()[:160] for e in apps + rets], s.fi.loc)
 
 
+def r03_8(ck: Check) -> None:
+    """the reference lists inside the per-key balance records are shared by every snapshot that holds the record: nobody edits one in
+    place (the updaters build new lists)"""
+    from ..engine.effects import attr_mutations
+    muts = attr_mutations(ck.walker, ck.repo)
+    if len(muts) < 20:
+        ck.unknown("R03.8", "in-place mutation scan", "the scan found only %d in-place mutations in the whole repository (expected dozens): it is not seeing the code" % len(muts))
+        return
+    bad = [(fi, ev, kind) for fi, ev, attr, kind in muts if attr == "output_references"]
+    construct = "no function edits a balance record's output_references list in place"
+    if bad:
+        for fi, ev, kind in bad:
+            ck.violated("R03.8", construct, "%s does (%s): the list belongs to the cached ledger snapshot, which therefore changes after the fact"
+                        % (short(fi.qualname), kind), ev.loc)
+    else:
+        ck.ok("R03.8", construct, "%d in-place mutations scanned repository-wide" % len(muts), "")
+
+
 def r03_4(ck: Check) -> None:
     q = BAL + "pkb_apply_transaction"
     s = ck.summ(q, 0)
@@ -257,6 +275,7 @@ def check(ck: Check) -> None:
     ck.run("R03.3", "balances are a replay, cached per id", lambda: r03_3(ck))
     ck.run("R03.4", "sibling agreement of the two updaters", lambda: r03_4(ck))
     ck.run("R03.5", "reporting paths read the per-block views by the head id", lambda: r03_5(ck))
+    ck.run("R03.8", "snapshots share their reference lists: no in-place edits", lambda: r03_8(ck))
     from .common import rule_ctor_identity, rule_eq
     ck.run("R03.6", "map keys: public keys and output references compare by content", lambda: (
         rule_eq(ck, "R03.6", "skepticoin.signing.SECP256k1PublicKey", ["public_key"], "per-key balances are keyed by public key"),
@@ -266,4 +285,6 @@ def check(ck: Check) -> None:
         ["block_by_hash", "unspent_transaction_outs_by_hash", "block_by_height_by_hash", "heads", "current_chain_hash"]))
     from .c04 import r04_4
     ck.run("R04.4", "height index extended from the parent's", lambda: r04_4(ck))
+    from .c08 import r08_8
+    ck.run("R08.8", "a reloaded block has its transactions in the order that was committed to (unordered reads rely on rowid order)", lambda: r08_8(ck))
     ck.assume("immutables.Map.set / mutate-finish return new maps and leave the receiver unchanged")
